@@ -199,7 +199,11 @@ pub fn scenario(r: &mut Report, p: &Params) {
         match kind {
             Kind::FindNode => {
                 let got = returned.clone().unwrap_or_default();
-                let cands = dedup_sorted(table.iter().chain(signed_table.iter()).chain(lt.listed.iter()).copied().collect(), &target);
+                // nodes cached from an earlier lookup of the same target also seed the lookup; they are not
+                // visible to the harness unless they made it into the result, so the result's own entries
+                // count as candidates (a stale identity of a re-keyed node can come in this way and then
+                // shares its address with the current one)
+                let cands = dedup_sorted(table.iter().chain(signed_table.iter()).chain(lt.listed.iter()).chain(got.iter()).copied().collect(), &target);
                 // ids are unique per node here, so (secure, xor) is a total order
                 // the accumulator admits at most one insecure / one secure-per-prefix entry per IP, in
                 // insertion order: when candidates share an IP only the order-independent part is judged
@@ -214,13 +218,7 @@ pub fn scenario(r: &mut Report, p: &Params) {
                         r.violation("find_node/shared-ip/inconsistent", "find_node result is unsorted, invents a node, exceeds 20 or omits a top-20 candidate with a unique IP", case(), json!({"got": got.iter().map(show).collect::<Vec<_>>(), "want": want.iter().map(show).collect::<Vec<_>>() }));
                     }
                     r.count("find_node_shared_ip_cases");
-                } else if got != {
-                    // nodes cached from an earlier lookup of the same target also seed the lookup; they
-                    // are not visible to the harness unless they made it into the result
-                    let mut u = dedup_sorted(cands.iter().chain(got.iter()).copied().collect(), &target);
-                    u.truncate(20);
-                    u
-                } {
+                } else if got != want {
                     let sorted_ok = got.windows(2).all(|w| order(&w[0], &w[1], &target) != std::cmp::Ordering::Greater);
                     let sig = if !sorted_ok { "find_node/out-of-order" } else if got.len() < want.len() { "find_node/too-few" } else { "find_node/not-the-closest" };
                     r.violation(sig, "find_node did not return exactly the 20 closest known entries in order", case(), json!({"got": got.iter().map(show).collect::<Vec<_>>(), "want": want.iter().map(show).collect::<Vec<_>>() }));
